@@ -9,13 +9,19 @@ def main():
     man = json.load(open(os.path.join(VERIF, 'MANIFEST.json')))
     props = [c['property_id'] for c in man['checks']]
     patches = sorted(glob.glob(os.path.join(VERIF, 'adversarial', '*', '*.diff')) + glob.glob(os.path.join(VERIF, 'adversarial', '*', '*', '*.diff')))
-    only = sys.argv[1:] 
+    only = sys.argv[1:]
+    merge = False
+    if '--list' in only:                # --list FILE: only the patches named in FILE (paths relative to /verif), merged into RESULTS.json
+        i = only.index('--list'); names = {l.strip() for l in open(only[i+1]) if l.strip()}; del only[i:i+2]
+        patches = [p for p in patches if os.path.relpath(p, VERIF) in names]
+        merge = True
     if only:
         patches = [p for p in patches if any(o in p for o in only)]
+        merge = True
     def one(p):
         return p, run(p, props)
-    out = {}
-    with cf.ThreadPoolExecutor(max_workers=8) as ex:
+    out = json.load(open(os.path.join(VERIF, 'adversarial', 'RESULTS.json'))) if merge else {}
+    with cf.ThreadPoolExecutor(max_workers=int(os.environ.get('SWEEP_WORKERS', '8'))) as ex:
         for p, res in ex.map(one, patches):
             name = os.path.relpath(p, os.path.join(VERIF, 'adversarial'))
             js = p[:-5] + '.json'
